@@ -81,6 +81,7 @@ EXHAUSTIVE = {"quick": False, "thorough": False}
 F_ALPHA = "C19-K5-alpha-codes-repeat-across-runs"
 
 CSV_TEXT = "a,b\n1,x\n2,y\n3,z\n4,w\n5,v\n"
+CSV_OTHER = "a,b\n91,ox\n92,oy\n93,oz\n"        # data.csv of the OTHER directory
 SHARED_OPTS = {"pid": 7}          # a non-empty options dict owned by the embedding application
 
 # =============================================================================== state walker
@@ -251,7 +252,16 @@ class Walker:
         self.locs["<process>:sys.path"] = _h(repr(sys.path))
         self.locs["<process>:os.environ"] = _h(repr(sorted(os.environ.items())))
         self.locs["<process>:recursionlimit"] = str(sys.getrecursionlimit())
-        self.locs["<process>:decimal.prec"] = str(decimal.getcontext().prec)
+        self.locs["<process>:decimal.context"] = _h(repr(decimal.getcontext()))
+        try:
+            import locale
+            self.locs["<process>:locale"] = str(locale.setlocale(locale.LC_ALL))
+        except Exception:
+            self.locs["<process>:locale"] = "?"
+        import warnings
+        self.locs["<process>:warnings.filters"] = _h(repr([(f[0], str(f[1]), str(f[2]), str(f[3]), f[4])
+                                                           for f in warnings.filters]))
+        self.locs["<process>:umask/euid"] = str(os.geteuid())
         return {"mods": mods, "locs": dict(self.locs)}
 
 
@@ -572,6 +582,22 @@ def yaml_pool():
         "- plugin: snowfakery.standard_plugins.datasets.Dataset\n- object: D\n  fields:\n"
         "    __row:\n      Dataset.iterate:\n        dataset: \"@CSV@.missing.csv\"\n    a: ${{__row.a}}\n",
         feats=["dataset", "fails"])
+    rel = ("- plugin: snowfakery.standard_plugins.datasets.Dataset\n- object: D\n  count: 2\n  fields:\n"
+           "    __row:\n      Dataset.iterate:\n        dataset: %s\n    a: ${{__row.a}}\n    b: ${{__row.b}}\n")
+    # relative dataset paths: a stream recipe resolves them against the working directory, a recipe FILE
+    # against its own directory (datasets.chdir)
+    add("dataset_rel_stream", rel % "data.csv", feats=["dataset", "relative_path"])
+    add("dataset_rel_file_work", rel % "data.csv", feats=["dataset", "relative_path", "recipe_file"])
+    P[-1]["dir"] = "work"
+    add("dataset_rel_file_other", rel % "data.csv", feats=["dataset", "relative_path", "recipe_file"])
+    P[-1]["dir"] = "other"
+    add("dataset_missing_file_other", rel % "no_such_file.csv", feats=["dataset", "relative_path", "recipe_file", "fails"])
+    P[-1]["dir"] = "other"
+    add("dataset_bad_extension_file_other", rel % "data.txt", feats=["dataset", "relative_path", "recipe_file", "fails"])
+    P[-1]["dir"] = "other"
+    add("dataset_bad_table_file_other", rel % "\"sqlite:///nodb.db\"\n        table: nope",
+        feats=["dataset", "relative_path", "recipe_file", "fails"])
+    P[-1]["dir"] = "other"
     add("random_reference_unique",
         "- object: P\n  count: 4\n  fields:\n    tag: ${{id * 10}}\n- object: Q\n  count: 4\n  fields:\n"
         "    r:\n      random_reference:\n        to: P\n        unique: true\n", random_fields=["r"],
@@ -715,6 +741,12 @@ def _directed(rng, pool_yaml):
     out.append(seq([now, plain, now]))                                      # repaired fc3a5e8: stale clock
     out.append(seq([today, today]))
     out.append(seq([Y["dataset_iterate_named"], Y["dataset_iterate_named"], Y["dataset_missing"], Y["dataset_iterate"]]))
+    # a run that fails while opening a dataset of a recipe FILE in another directory, then relative paths
+    out.append(seq([Y["dataset_rel_stream"], Y["dataset_missing_file_other"], Y["dataset_rel_stream"]], api="generate_data"))
+    out.append(seq([Y["dataset_rel_file_other"], Y["dataset_bad_extension_file_other"], Y["dataset_rel_stream"],
+                    Y["dataset_rel_file_work"], Y["dataset_rel_file_other"]]))
+    out.append(seq([Y["dataset_missing_file_other"], Y["dataset_rel_stream"]], fresh="spawn"))
+    out.append(seq([Y["dataset_rel_file_other"], Y["dataset_rel_stream"], Y["dataset_rel_file_work"]], api="generate_data"))
     out.append(seq([Y["nick_var"], Y["uses_undefined_names"], Y["nick_var_other_meaning"], Y["uses_undefined_names"]]))
     out.append(seq([Y["just_once_nick"], Y["uses_first_only"], Y["uses_table_A_only"], Y["nick_var"], Y["uses_first_only"]]))
     out.append(seq([Y["counter_named_in_var"], counters, Y["counter_named_in_var"]]))
@@ -825,8 +857,18 @@ class _RunTimeout(BaseException):
     pass
 
 
-def _one_run(spec, api, opts, seed, csv_path):
-    """-> rows, err"""
+def _recipe_source(spec, text, root):
+    """None for a stream recipe, else the path of the recipe FILE (written into its directory)"""
+    if not spec.get("dir") or not root:
+        return None
+    path = os.path.join(root, spec["dir"], f"{spec.get('name', 'r')}.recipe.yml")
+    with open(path, "w") as f:
+        f.write(text)
+    return path
+
+
+def _one_run(spec, api, opts, seed, csv_path, root=None):
+    """-> rows, err, random generator untouched?"""
     from snowfakery.api import SnowfakeryApplication, generate_data
     from snowfakery.data_generator import generate
     from snowfakery.data_generator_runtime import StoppingCriteria
@@ -837,26 +879,31 @@ def _one_run(spec, api, opts, seed, csv_path):
         crit = StoppingCriteria("__REPS__", spec.get("reps", 1))
     app = SnowfakeryApplication(crit)
     app.echo = lambda *a, **k: None
+    path = _recipe_source(spec, text, root)
     random.seed(seed)
+    r0 = _h(repr(random.getstate()))
     err = None
     if api == "generate":
         cap = _make_capture()
+        src = open(path) if path else io.StringIO(text)
         try:
-            generate(io.StringIO(text), {}, cap, app, plugin_options=opts)
+            generate(src, {}, cap, app, plugin_options=opts)
         except _RunTimeout:
             err = "HANG"
         except BaseException as e:
             err = C.canon_exc(e)
-        return cap.rows, err
+        finally:
+            src.close()
+        return cap.rows, err, _h(repr(random.getstate())) == r0
     out = io.StringIO()
     try:
-        generate_data(io.StringIO(text), parent_application=app, output_format="json", output_file=out,
+        generate_data(path or io.StringIO(text), parent_application=app, output_format="json", output_file=out,
                       plugin_options=opts)
     except _RunTimeout:
         err = "HANG"
     except BaseException as e:
         err = C.canon_exc(e)
-    return _json_rows(out.getvalue()), err
+    return _json_rows(out.getvalue()), err, _h(repr(random.getstate())) == r0
 
 
 def _view(opts):
@@ -891,6 +938,8 @@ def run_many(payload):
     def on_alarm(signum, frame):
         raise _RunTimeout()
     signal.signal(signal.SIGALRM, on_alarm)
+    if payload.get("root"):
+        os.chdir(os.path.join(payload["root"], "work"))     # the application's working directory
     opts = None
     if payload["shared"]:
         opts = dict(SHARED_OPTS)
@@ -905,13 +954,14 @@ def run_many(payload):
         t0 = datetime.datetime.now(datetime.timezone.utc).isoformat()
         signal.alarm(30)
         try:
-            rows, err = _one_run(spec, payload["api"], opts, payload["seed"], payload["csv"])
+            rows, err, rnd_same = _one_run(spec, payload["api"], opts, payload["seed"], payload["csv"],
+                                           payload.get("root"))
         except _RunTimeout:
-            rows, err = [], "HANG"
+            rows, err, rnd_same = [], "HANG", True
         finally:
             signal.alarm(0)
         t1 = datetime.datetime.now(datetime.timezone.utc).isoformat()
-        o = {"rows": rows, "err": err, "t0": t0, "t1": t1}
+        o = {"rows": rows, "err": err, "t0": t0, "t1": t1, "random_state_untouched": rnd_same}
         v = _view(opts)
         v["cv_changed"] = v["cv_id"] != prev_cv
         prev_cv = v.pop("cv_id")
@@ -1014,13 +1064,18 @@ def run_impl(case):
     if mode == "fork" and not _pristine_ok():
         mode = "spawn"
     launch = _fork if mode == "fork" else _spawn
-    tmp = tempfile.mkdtemp(prefix="sfv_c19_")
+    tmp = tempfile.mkdtemp(prefix="sfv_c19_", dir="/var/tmp")
     try:
-        csv_path = os.path.join(tmp, "data.csv")
-        with open(csv_path, "w") as f:
-            f.write(CSV_TEXT)
+        # <tmp>/work = the application's working directory, <tmp>/other = where recipe FILES of the
+        # "other" kind live; both hold a data.csv with different content
+        for d, txt in (("work", CSV_TEXT), ("other", CSV_OTHER)):
+            os.mkdir(os.path.join(tmp, d))
+            for fn in ("data.csv", "data.txt"):
+                with open(os.path.join(tmp, d, fn), "w") as f:
+                    f.write(txt)
+        csv_path = os.path.join(tmp, "work", "data.csv")
         base = {"api": case.get("api", "generate"), "shared": case.get("shared_opts") or False,
-                "seed": case.get("seed", 1), "csv": csv_path}
+                "seed": case.get("seed", 1), "csv": csv_path, "root": tmp}
         seq = launch(dict(base, specs=case["recipes"], audit=True))
         fresh = []
         for spec in case["recipes"]:
